@@ -13,7 +13,7 @@ def pV2 : Parser (V2 Float) := fun ts => do
   let (b, ts) ← pFloat ts
   pure (⟨a, b⟩, ts)
 
-def moreOps : List String := ["scalealongnormal", "scale2d", "normalize2d", "copyattr", "cropnode", "alongnormalnode"]
+def moreOps : List String := ["scalealongnormal", "scale2d", "normalize2d", "copyattr", "cropnode", "alongnormalnode", "translatenode", "rotatenode", "scalenode"]
 
 /-- an optional token: `-` = the node input is not wired (nil) -/
 def pOptTok : Parser (Option String)
@@ -61,6 +61,26 @@ def applyMore (op : String) (ts : List String) : Option (Option (List MV)) :=
       | _ => do
           let (m, _) ← pMesh ts
           oneO (MeshVal.scaleAlongNormalNode (some m) attr nrm amount)
+  | "translatenode" => do    -- attr|- t mesh
+      let (attr, ts) ← pOptTok ts; let (t, ts) ← pV3 ts
+      let (m, _) ← pMesh ts
+      oneO (m.translateNode attr t)
+  | "rotatenode" => do       -- attr|- q mesh|-
+      let (attr, ts) ← pOptTok ts
+      let (qv, ts) ← pV3 ts; let (qw, ts) ← pFloat ts
+      match ts with
+      | ["-"] => oneO (MeshVal.rotateNode none attr ⟨qv, qw⟩)
+      | _ => do
+          let (m, _) ← pMesh ts
+          oneO (MeshVal.rotateNode (some m) attr ⟨qv, qw⟩)
+  | "scalenode" => do        -- attr|- (origin)|- amount mesh
+      let (attr, ts) ← pOptTok ts
+      let (o, ts) ← (match ts with
+        | "-" :: ts => some (none, ts)
+        | _ => (pV3 ts).map fun xt => (some xt.1, xt.2))
+      let (a, ts) ← pV3 ts
+      let (m, _) ← pMesh ts
+      oneO (m.scaleNode attr o a)
   | _ => none
 
 end Driver.MeshIO
